@@ -170,7 +170,14 @@ func unlockAbortIfFileModifiedById(id string, lockClient *locking.Client) error 
 	locks, _ := lockClient.SearchLocks(filter, 0, true, false)
 	if len(locks) == 0 {
 		// Fall back on calling server
-		locks, _ = lockClient.SearchLocks(filter, 0, false, false)
+		var err error
+		locks, err = lockClient.SearchLocks(filter, 0, false, false)
+		if err != nil && !unlockCmdFlags.Force {
+			// Not knowing the path is not the same as there being
+			// no such lock: without --force, do not release a lock
+			// whose file could not be checked.
+			return err
+		}
 	}
 
 	if len(locks) == 0 {
